@@ -21,10 +21,13 @@ Obs == ndJsonDeserialize("obs.ndjson")
 (* Comparer cases                                                          *)
 
 \* what the property settles for one cmp.Equal(terms...) on (x, y):
-\* NOT settled (not asserted): a float tolerance on NaN / +-Inf; change_time present on
+\* NOT settled (not asserted): a float tolerance on NaN, on an infinity against itself and on +Inf
+\* against -Inf under a fraction > 0 (Cmp.tla PairJudged; an infinity against a real number or, with
+\* fraction 0, against the opposite infinity IS judged: not within any tolerance); change_time present on
 \* one side only; a time tolerance vs. differing (ignored) change_times; DurationValueWithinP's
 \* acceptance (see Cmp.tla)
-FinOK(terms, x, y) == ~HasFloat(terms) \/ (AllFinite(x) /\ AllFinite(y))
+FrPos(terms) == \E j \in 1..Len(terms) : \E i \in 1..Len(terms[j].cs) : terms[j].cs[i].k = "float" /\ terms[j].cs[i].a > 0
+FinOK(terms, x, y) == ~HasFloat(terms) \/ \A p \in FloatPairs(x, y) : PairJudged(FrPos(terms), p[1], p[2])
 Settled(terms, x, y) ==
   /\ FinOK(terms, x, y) /\ "durp" \notin Kinds(terms)
   /\ ~CTOneSided(x, y) /\ ~("time" \in Kinds(terms) /\ CTDiff(x, y))
@@ -59,7 +62,7 @@ CmpFails(t) ==
   \cup (IF ~CTDiff(x, y) /\ (t.pe.xy # DefaultEqual(x, y) \/ t.pe.yx # DefaultEqual(y, x)) THEN {"MODEL|proto-equal-differs-from-spec"} ELSE {})
   \* reflexive, symmetric (finite values under a float tolerance)
   \cup (IF (finx /\ ~t.self.x) \/ (finy /\ ~t.self.y) THEN {"not-reflexive|"} ELSE {})
-  \cup (IF finx /\ finy /\ t.got.xy # t.got.yx THEN {"not-symmetric|"} ELSE {})
+  \cup (IF (\A j \in 1..Len(cfg.ms) : FinOK(cfg.ms[j], x, y)) /\ t.got.xy # t.got.yx THEN {"not-symmetric|"} ELSE {})
   \* every component cmp.Equal(...) accepts exactly what the reference accepts
   \cup UNION { PartFails(cfg.ms[j], x, y, t.parts[j].xy) \cup PartFails(cfg.ms[j], y, x, t.parts[j].yx) : j \in 1..Len(cfg.ms) }
   \* And / Or = conjunction / disjunction of what the components really returned
